@@ -155,6 +155,24 @@ func generate() {
 		do("syncquery 9")
 	}
 
+	// ---- renaming / re-assigning an occupied slot (cache.SetUserID): no balance may move
+	for _, u := range slots {
+		seed++
+		do(resetLine(nSlot, 0, seed, baseBalances(), nil))
+		do(fmt.Sprintf("de %d 400", u))
+		if inArr(u) {
+			do(fmt.Sprintf("setuserid %d VU%02d", u, u)) // case-corrected id of the same owner
+		} else {
+			do(fmt.Sprintf("setuserid %d ghost", u))
+		}
+		do(fmt.Sprintf("get %d", u))
+		do(fmt.Sprintf("de %d -100", u))
+		do(fmt.Sprintf("setuserid %d rn%d", u, seed)) // another id
+		do(fmt.Sprintf("syncquery %d", u))
+		do(fmt.Sprintf("permupdate %d 0 1", u))
+		do(fmt.Sprintf("get %d", u))
+	}
+
 	// ---- field writers (ptt.ChangeEmail) between money operations: only the Email field of that record changes
 	for _, u := range slots {
 		seed++
@@ -374,6 +392,10 @@ func generate() {
 				continue
 			}
 			if r.Intn(25) == 0 {
+				do(fmt.Sprintf("setuserid %d su%dx%d", u, h, k))
+				continue
+			}
+			if r.Intn(25) == 0 {
 				do(fmt.Sprintf("chemail %d r%d@h%d.tw", u, k, h))
 				continue
 			}
@@ -509,6 +531,7 @@ func generate() {
 		"reset 50 0 1 " + csv(base) + " " + csv(base) + " free=", "reset 50 0 1 " + csv(base) + " " + csv(base) + " free=0",
 		"reset 50 0 1 " + csv(base) + " " + csv(base) + " free=3,3", "reset 50 0 1 " + csv(base) + " " + csv(base) + " fre=3",
 		"resetconc 4 10", "resetconc x 10 1",
+		"setuserid", "setuserid 1", "setuserid 1 1a", "setuserid x ab", "setuserid 1 ab cd",
 		"chemail", "chemail 1", "chemail 1 a_b", "chemail x a@b", "chemail 1 a@b c", "resetconcfld 3 5",
 		"age", "age 1 2", "age 0 1 0", "age 1 x 0", "age 1 1 4294967296", "expire", "expire 1a 5", "expire ab", "expire ab 5 1 0",
 		"expire ab 5 1,2 0 zz", "expire ab 5 1 0 00",
